@@ -160,7 +160,7 @@ def run(tier, seed):
                         distinct_nontrivial=len({(str(t["tc"]), t["w"], str([(f["dets"]) for f in t["frames"]])) for t in traces if len(t["frames"]) >= 2}),
                         rule="presence histories: each of 3 animals absent/high/low per frame, all histories of length <= 3 (thorough: x every tracker configuration; quick: length <= 2 complete, 1200 of length 3, configurations rotated); scenes: seeded random walks with crossings, coincident animals, NaN keypoints, empty stretches. Non-trivial = at least 2 frames; distinct by (configuration, window, detection sequence)")
     res.sample(dict(tc=traces[n_presence - 1]["tc"], w=traces[n_presence - 1]["w"], frames=[dict(dets=f["dets"], ret=f["ret"]) for f in traces[n_presence - 1]["frames"]]))
-    res.assumptions += ["FlowShiftTracker, image features, max_tracks, 'weighted' reduction not covered",
+    res.assumptions += ["FlowShiftTracker is run on a static texture only (zero optical flow); image features, max_tracks, 'weighted' reduction not covered",
                         "detections are sio.PredictedInstance objects built by the harness; identity of returned objects is by `is`"]
     return res
 
